@@ -219,8 +219,33 @@ func Select(a, i Term) Term {
 
 func Store(a, i, v Term) Term { return mk(a.Sort, "store", a, i, v) }
 
-func Add(a, b Term) Term { return mk(SInt, "+", a, b) }
-func Sub(a, b Term) Term { return mk(SInt, "-", a, b) }
+func Add(a, b Term) Term {
+	if isNumeral(a.S) && isNumeral(b.S) && len(a.S) < 15 && len(b.S) < 15 {
+		var x, y int64
+		fmt.Sscan(a.S, &x)
+		fmt.Sscan(b.S, &y)
+		return IntLit(x + y)
+	}
+	if a.S == "0" {
+		return b
+	}
+	if b.S == "0" {
+		return a
+	}
+	return mk(SInt, "+", a, b)
+}
+func Sub(a, b Term) Term {
+	if isNumeral(a.S) && isNumeral(b.S) && len(a.S) < 15 && len(b.S) < 15 {
+		var x, y int64
+		fmt.Sscan(a.S, &x)
+		fmt.Sscan(b.S, &y)
+		return IntLit(x - y)
+	}
+	if b.S == "0" {
+		return a
+	}
+	return mk(SInt, "-", a, b)
+}
 func Mul(a, b Term) Term { return mk(SInt, "*", a, b) }
 func Le(a, b Term) Term  { return mk(SBool, "<=", a, b) }
 func Lt(a, b Term) Term  { return mk(SBool, "<", a, b) }
